@@ -21,9 +21,11 @@ import (
 	"context"
 	"crypto/sha256"
 	"errors"
+	"fmt"
 	"io"
 	"os"
 	"path/filepath"
+	"runtime/debug"
 	"sync"
 	"time"
 
@@ -167,9 +169,7 @@ func (p *Provider) watchFiles() {
 				return
 			}
 
-			if err := p.ruleSetsChanged(evt); err != nil {
-				p.l.Warn().Err(err).Str("_src", evt.Name).Msg("Failed to apply rule set changes")
-			}
+			p.handleEvent(evt)
 		case err, ok := <-p.w.Errors:
 			if !ok {
 				p.l.Debug().Msg("Watcher error channel closed")
@@ -179,6 +179,22 @@ func (p *Provider) watchFiles() {
 
 			p.l.Warn().Err(err).Msg("Watcher error received")
 		}
+	}
+}
+
+// handleEvent keeps the watcher goroutine alive: the files are read while they are being written, moved or
+// deleted, so whatever goes wrong while applying a change must neither end the process nor stop the watcher.
+func (p *Provider) handleEvent(evt fsnotify.Event) {
+	defer func() {
+		if rec := recover(); rec != nil {
+			p.l.Error().
+				Str("_src", evt.Name).
+				Msg(fmt.Sprintf("Applying rule set changes panicked: %v\n%s", rec, debug.Stack()))
+		}
+	}()
+
+	if err := p.ruleSetsChanged(evt); err != nil {
+		p.l.Warn().Err(err).Str("_src", evt.Name).Msg("Failed to apply rule set changes")
 	}
 }
 
@@ -273,7 +289,12 @@ func (p *Provider) loadRuleSet(fileName string) (*config2.RuleSet, error) {
 			CausedBy(err)
 	}
 
-	stat, _ := os.Stat(fileName)
+	// the file may be gone by now (temporary files of editors, atomic replacements)
+	stat, err := os.Stat(fileName)
+	if err != nil {
+		return nil, errorchain.NewWithMessagef(heimdall.ErrInternal,
+			"failed to get information about %s", fileName).CausedBy(err)
+	}
 
 	ruleSet.Hash = md.Sum(nil)
 	ruleSet.Source = "file_system:" + fileName
